@@ -342,9 +342,110 @@ Proof.
     + assert (forall v, In v (somes others ++ [self]) -> length v = length self) as HS'
         by (intros v I; apply in_app_iff in I; destruct I as [I|[I|[]]]; [auto | subst; auto]).
       split; [|apply vsum_length; auto]. rewrite getc_vsum by auto.
-      rewrite map_app, qsum_app. simpl. change (inject_Z (Z.of_nat 1)) with 1. lra.
+      rewrite map_app, qsum_app. cbn [map qsum fold_right]. change (inject_Z (Z.of_nat 1)) with 1. lra.
     + assert (forall v, In v (somes others ++ [vscale (inject_Z (Z.of_nat (S (S k)))) self]) -> length v = length self) as HS'.
       { intros v I; apply in_app_iff in I; destruct I as [I|[I|[]]]; [auto|]. subst. apply vscale_length. }
       split; [|apply vsum_length; auto]. rewrite getc_vsum by auto.
-      rewrite map_app, qsum_app. simpl. rewrite getc_vscale. lra.
+      rewrite map_app, qsum_app. cbn [map qsum fold_right]. rewrite getc_vscale.
+      set (K := inject_Z (Z.of_nat (S (S k))) * getc p self c). lra.
+Qed.
+
+(* ---------- ChemicalIndexer.mix_from ---------- *)
+Definition inl_stream (self : stream) (i : inl) : stream :=
+  match i with ISelf => self | IC c => SS c | IM m => MS m end.
+Definition inl_ok (left : pkg) (s : stream) : Prop := wf_stream s /\ coherent left (spkg s).
+
+Lemma same_pkg_eq a b : same_pkg a b = true -> coherent a b -> a = b.
+Proof. unfold same_pkg, coherent. intros H C. apply Nat.eqb_eq in H. auto. Qed.
+
+Lemma qsum_map_some p self c rows :
+  qsum (map (scval p self c) (map Some rows)) = qsum (map (fun r => getc p r c) rows).
+Proof. rewrite map_map. reflexivity. Qed.
+
+Lemma cparts_value self i sc od :
+  cparts self i = Ok (sc, od) -> wf_stream (SS self) -> inl_ok (cpkg self) (inl_stream (SS self) i) ->
+  (forall v, In (Some v) sc -> length v = length (crow self)) /\
+  exists fs, Forall2 (adds_like (cpkg self)) od fs /\
+    forall c, qsum (map (scval (cpkg self) (crow self) c) sc) + qsum (map (fun f => f c) fs)
+              == tot (inl_stream (SS self) i) c.
+Proof.
+  intros H [WP [WL _]] [[WP' [WL' _]] CO]. simpl in WP, WL.
+  assert (length (crow self) = psize (cpkg self)) as LS by (apply WL; left; auto).
+  destruct i as [|c0|m]; simpl in *.
+  - inversion H; subst. split; [intros v [X|[]]; discriminate|].
+    exists []. split; [constructor|]. intros c. unfold tot, rows_tot. simpl. lra.
+  - destruct (same_pkg (cpkg self) (cpkg c0)) eqn:SP.
+    + inversion H; subst. pose proof (same_pkg_eq _ _ SP CO) as E.
+      split. { intros v [X|[]]. inversion X; subst. rewrite LS, E. apply WL'; left; auto. }
+      exists []. split; [constructor|]. intros c. unfold tot, rows_tot. simpl. rewrite E. lra.
+    + destruct (overlap (cpkg self) (cpkg c0) (nz_keys (crow c0))) as [pr|] eqn:OV; simpl in H; [|discriminate].
+      inversion H; subst. split; [intros v []|].
+      exists [getc (cpkg c0) (crow c0)]. split.
+      * constructor; [|constructor]. eapply overlap_adds_like; eauto.
+        -- apply nz_keys_rows_nodup.
+        -- intros i I. apply nz_keys_rows_lt in I. rewrite <- (WL' (crow c0)); [auto | left; auto].
+        -- apply nz_keys_covers.
+      * intros c. unfold tot, rows_tot. simpl. lra.
+  - destruct (same_pkg (cpkg self) (mpkg m)) eqn:SP.
+    + inversion H; subst. pose proof (same_pkg_eq _ _ SP CO) as E.
+      split. { intros v X. apply in_map_iff in X. destruct X as [r [X1 X2]]. inversion X1; subst.
+               rewrite LS, E. apply WL'; auto. }
+      exists []. split; [constructor|]. intros c. unfold tot, rows_tot. simpl.
+      rewrite qsum_map_some. rewrite E. lra.
+    + destruct (overlap (cpkg self) (mpkg m) (nz_keys (vsum (psize (mpkg m)) (mrows m)))) as [pr|] eqn:OV;
+        simpl in H; [|discriminate].
+      inversion H; subst. split; [intros v []|].
+      assert (length (vsum (psize (mpkg m)) (mrows m)) = psize (mpkg m)) as LV by (apply vsum_length; auto).
+      exists [getc (mpkg m) (vsum (psize (mpkg m)) (mrows m))]. split.
+      * constructor; [|constructor]. eapply overlap_adds_like; eauto.
+        -- apply nz_keys_rows_nodup.
+        -- intros i I. apply nz_keys_rows_lt in I. lia.
+        -- apply nz_keys_covers.
+      * intros c. unfold tot, rows_tot. simpl. rewrite getc_vsum by auto. lra.
+Qed.
+
+Lemma Forall2_app_l {A B} (R : A -> B -> Prop) a1 a2 b1 b2 :
+  Forall2 R a1 b1 -> Forall2 R a2 b2 -> Forall2 R (a1 ++ a2) (b1 ++ b2).
+Proof. intros H1 H2. induction H1; simpl; auto. Qed.
+
+Lemma cparts_all_value self l sc od :
+  cparts_all self l = Ok (sc, od) -> wf_stream (SS self) ->
+  (forall i, In i l -> inl_ok (cpkg self) (inl_stream (SS self) i)) ->
+  (forall v, In (Some v) sc -> length v = length (crow self)) /\
+  exists fs, Forall2 (adds_like (cpkg self)) od fs /\
+    forall c, qsum (map (scval (cpkg self) (crow self) c) sc) + qsum (map (fun f => f c) fs)
+              == qsum (map (fun i => tot (inl_stream (SS self) i) c) l).
+Proof.
+  revert sc od; induction l as [|i l IH]; intros sc od H W OK; simpl in H.
+  - inversion H; subst. split; [intros v []|]. exists []. split; [constructor|]. intros c; simpl; lra.
+  - destruct (cparts self i) as [[sc1 od1]|] eqn:E1; simpl in H; [|discriminate].
+    destruct (cparts_all self l) as [[sc2 od2]|] eqn:E2; simpl in H; [|discriminate].
+    inversion H; subst.
+    destruct (cparts_value _ _ _ _ E1 W (OK i (or_introl eq_refl))) as [L1 [fs1 [F1 V1]]].
+    destruct (IH _ _ eq_refl W (fun j J => OK j (or_intror J))) as [L2 [fs2 [F2 V2]]].
+    split. { intros v I. apply in_app_iff in I. destruct I; auto. }
+    exists (fs1 ++ fs2). split; [apply Forall2_app_l; auto|].
+    intros c. simpl. rewrite !map_app, !qsum_app. rewrite <- V1, <- V2. lra.
+Qed.
+
+Lemma cmix_from_value self others c' :
+  cmix_from self others = Ok c' -> wf_stream (SS self) ->
+  (forall i, In i others -> inl_ok (cpkg self) (inl_stream (SS self) i)) ->
+  cpkg c' = cpkg self /\ length (crow c') = psize (cpkg self) /\
+  forall c, getc (cpkg self) (crow c') c == qsum (map (fun i => tot (inl_stream (SS self) i) c) others).
+Proof.
+  intros H W OK. unfold cmix_from in H. destruct others as [|o l] eqn:EO; [discriminate|].
+  rewrite <- EO in *. clear EO o l.
+  destruct (cparts_all self others) as [[sc od]|] eqn:E; simpl in H; [|discriminate].
+  inversion H; subst. simpl.
+  destruct (cparts_all_value _ _ _ _ E W OK) as [L [fs [F V]]].
+  destruct W as [WP [WL _]]. simpl in WL.
+  assert (length (crow self) = psize (cpkg self)) as LS by (apply WL; left; auto).
+  destruct (sv_mix_from_getc (cpkg self) (crow self) sc 0%nat L) as [_ LM].
+  split; auto.
+  destruct (add_others_getc (cpkg self) od fs (sv_mix_from (crow self) sc) 0%nat F) as [_ LA]; [lia|].
+  split; [lia|]. intros c.
+  destruct (add_others_getc (cpkg self) od fs (sv_mix_from (crow self) sc) c F) as [EA _]; [lia|].
+  rewrite EA. destruct (sv_mix_from_getc (cpkg self) (crow self) sc c L) as [EM _].
+  rewrite EM. apply V.
 Qed.
